@@ -9,6 +9,25 @@ REL = {"Release", "AcqRel", "SeqCst"}
 ACQ = {"Acquire", "AcqRel", "SeqCst"}
 
 
+_ORD_ROLE = {}
+
+
+def _ord(prog, i, body, t, k):
+    """Ordering argument as ('const', V) or ('param', role) with role = success/ordering (first Ordering parameter of the
+    declaring function) or failure (second): positional, independent of the parameter's name."""
+    r = ordering_ordinal(prog, prog.insts[i].key, body.expr_of_operand(t["args"][k]))
+    if r[0] == "ord":
+        fn = prog.fns[prog.insts[i].key]
+        n = len(params_of_type(fn, ORD_TY))
+        if fn.kind == "Closure":
+            pf = prog.fns.get(enclosing_fn(prog.insts[i].key))
+            n = len(params_of_type(pf, ORD_TY)) if pf else n
+        if n >= 2:
+            return ("param", "success" if r[1] == 0 else "failure")
+        return ("param", "ordering")
+    return r
+
+
 def sync_matcher(prog, i, b, t, c):
     """Events: 'store:<Ordering|param:name>' / 'load:<...>' for Synchronize::sync_store/sync_load calls,
     'rel' / 'acq' when the constant ordering is at least Release / Acquire."""
@@ -16,13 +35,13 @@ def sync_matcher(prog, i, b, t, c):
     out = []
     body = prog.body_of(i)
     if key == SYNC + "::sync_store":
-        o = ordering_arg(body, t, 2)
+        o = _ord(prog, i, body, t, 2)
         out.append("store:%s:%s" % o)
         out.append("store:any")
         if o[0] == "const" and o[1] in REL:
             out.append("rel")
     elif key == SYNC + "::sync_load":
-        o = ordering_arg(body, t, 2)
+        o = _ord(prog, i, body, t, 2)
         out.append("load:%s:%s" % o)
         out.append("load:any")
         if o[0] == "const" and o[1] in ACQ:
@@ -332,7 +351,7 @@ def _atomic_rows(ctx):
             for b in only:
                 t = body.term(b)
                 if t["k"] == "call" and prog.callee_key(prog.insts[root].calls.get(b, {})) == "rt::atomic::State::store":
-                    o = ordering_arg(body, t, 4)
+                    o = _ord(prog, root, body, t, 4)
                     ok = (o == ("param", "success"))
             if ok:
                 ctx.ok("Y1", fn_key + ":Ok-store", "store half uses the success ordering", [fn_key])
@@ -455,7 +474,7 @@ def Y3(ctx):
             continue
         ea = EventAnalysis(prog, _table_matcher, stop=lambda i: prog.insts[i].key != fn_key).solve([root])
         ctx.touch(fn_key, 5)
-        got = dispatch_table(prog, root, "order", ea, ORDERINGS)
+        got = dispatch_table(prog, root, param_name(prog.fns[fn_key], ORD_TY), ea, ORDERINGS)
         if got is None:
             ctx.missing("Y3", fn_key, "no dispatch on `order`")
             continue
@@ -502,7 +521,8 @@ def Y4(ctx):
         ctx.missing("Y4", fn_key)
         return
     ea = EventAnalysis(prog, _table_matcher).solve([root])
-    got = dispatch_table(prog, root, "ordering", ea, ORDERINGS)
+    ups = prog.fns[fn_key].j.get("upvars") or ["ordering"]
+    got = dispatch_table(prog, root, ups[0], ea, ORDERINGS)
     if got is None:
         ctx.missing("Y4", fn_key, "no dispatch on the fence ordering")
         return
